@@ -34,17 +34,16 @@ Proof.
     + destruct (k' =? k0); [reflexivity | exact IH].
 Qed.
 
-(* the write-back loop: without an injected fault it completes *)
-Lemma writeback_nofault (F : nat) (tag : list meas) (ps : list nat) (nc : nat) (pv : pvals) :
-  snd (writeback F tag None nc ps pv) = true.
+(* the write-back loop as it was before DI92: without an injected fault it completes *)
+Lemma writeback_old_nofault (F : nat) (tag : list meas) (ps : list nat) (nc : nat) (pv : pvals) :
+  snd (writeback_before_DI92 F tag None nc ps pv) = true.
 Proof.
   revert nc pv. induction ps as [| k ps IH]; intros nc pv; simpl; [reflexivity |].
   destruct (pv_freqs (pv_get pv k) =? F); apply IH.
 Qed.
 
-(* parameters that are not in the unknown list are never touched, completed or not *)
-Lemma writeback_frame (F : nat) (tag : list meas) (fa : option nat) (ps : list nat) (nc : nat) (pv : pvals) (k0 : nat) :
-  ~ In k0 ps -> pv_get (fst (writeback F tag fa nc ps pv)) k0 = pv_get pv k0.
+Lemma writeback_old_frame (F : nat) (tag : list meas) (fa : option nat) (ps : list nat) (nc : nat) (pv : pvals) (k0 : nat) :
+  ~ In k0 ps -> pv_get (fst (writeback_before_DI92 F tag fa nc ps pv)) k0 = pv_get pv k0.
 Proof.
   revert nc pv. induction ps as [| k ps IH]; intros nc pv N; simpl; [reflexivity |].
   assert (N1 : k0 <> k) by (intros E; apply N; left; congruence).
@@ -56,10 +55,9 @@ Proof.
     + rewrite IH by exact N2. apply pv_get_set_other. exact N1.
 Qed.
 
-(* a completed write-back leaves every listed parameter with the new frequency count and the new solution *)
-Lemma writeback_done (F : nat) (tag : list meas) (fa : option nat) (ps : list nat) (nc : nat) (pv : pvals) (k0 : nat) :
-  snd (writeback F tag fa nc ps pv) = true -> In k0 ps ->
-  pv_get (fst (writeback F tag fa nc ps pv)) k0 = {| pv_freqs := F; pv_gamma := Some tag |}.
+Lemma writeback_old_done (F : nat) (tag : list meas) (fa : option nat) (ps : list nat) (nc : nat) (pv : pvals) (k0 : nat) :
+  snd (writeback_before_DI92 F tag fa nc ps pv) = true -> In k0 ps ->
+  pv_get (fst (writeback_before_DI92 F tag fa nc ps pv)) k0 = {| pv_freqs := F; pv_gamma := Some tag |}.
 Proof.
   revert nc pv. induction ps as [| k ps IH]; intros nc pv C I; simpl in *; [contradiction |].
   destruct (in_dec Nat.eq_dec k0 ps) as [I2 | N2].
@@ -67,9 +65,39 @@ Proof.
     destruct (match fa with Some j => j =? nc | None => false end); [discriminate | apply IH; assumption].
   - destruct I as [E | I]; [subst k0 | contradiction].
     destruct (pv_freqs (pv_get pv k) =? F).
-    + rewrite writeback_frame by exact N2. apply pv_get_set_same.
+    + rewrite writeback_old_frame by exact N2. apply pv_get_set_same.
     + destruct (match fa with Some j => j =? nc | None => false end); [discriminate |].
-      rewrite writeback_frame by exact N2. apply pv_get_set_same.
+      rewrite writeback_old_frame by exact N2. apply pv_get_set_same.
+Qed.
+
+(* the write-back since DI92 (all or nothing) *)
+Lemma writeback_nofault (F : nat) (tag : list meas) (ps : list nat) (nc : nat) (pv : pvals) :
+  snd (writeback F tag None nc ps pv) = true.
+Proof. exact (writeback_old_nofault F tag ps nc pv). Qed.
+
+Lemma writeback_failed_unchanged (F : nat) (tag : list meas) (fa : option nat) (ps : list nat) (nc : nat) (pv : pvals) :
+  snd (writeback F tag fa nc ps pv) = false -> fst (writeback F tag fa nc ps pv) = pv.
+Proof.
+  unfold writeback. destruct fa as [j|].
+  - destruct (j <? wb_allocs F ps pv); [reflexivity |]. rewrite writeback_old_nofault. discriminate.
+  - rewrite writeback_old_nofault. discriminate.
+Qed.
+
+Lemma writeback_frame (F : nat) (tag : list meas) (fa : option nat) (ps : list nat) (nc : nat) (pv : pvals) (k0 : nat) :
+  ~ In k0 ps -> pv_get (fst (writeback F tag fa nc ps pv)) k0 = pv_get pv k0.
+Proof.
+  intros N. unfold writeback. destruct fa as [j|].
+  - destruct (j <? wb_allocs F ps pv); [reflexivity | apply writeback_old_frame; exact N].
+  - apply writeback_old_frame; exact N.
+Qed.
+
+Lemma writeback_done (F : nat) (tag : list meas) (fa : option nat) (ps : list nat) (nc : nat) (pv : pvals) (k0 : nat) :
+  snd (writeback F tag fa nc ps pv) = true -> In k0 ps ->
+  pv_get (fst (writeback F tag fa nc ps pv)) k0 = {| pv_freqs := F; pv_gamma := Some tag |}.
+Proof.
+  unfold writeback. destruct fa as [j|].
+  - destruct (j <? wb_allocs F ps pv); [discriminate | apply writeback_old_done].
+  - apply writeback_old_done.
 Qed.
 
 (* ------------------------------------------------------------------ solve: what each exit leaves behind *)
@@ -103,6 +131,17 @@ Lemma solve_fail_unchanged (o : oracle) (af : afault) (st : state) :
   wb_fault af = false -> snd (solve o af st) <> Ok -> fst (solve o af st) = st.
 Proof.
   intros W. destruct (solve_cases o af st) as [H | [H | [H | [[H _] | [H [_ C]]]]]]; rewrite H; simpl; auto; congruence.
+Qed.
+
+Lemma set_pv_same (st : state) : set_pv st (st_pv st) = st.
+Proof. destruct st; reflexivity. Qed.
+
+(* DI92: EVERY failing solve, an allocation failure inside the write-back included, returns the state it was given *)
+Lemma solve_fail_unchanged_all (o : oracle) (af : afault) (st : state) :
+  snd (solve o af st) <> Ok -> fst (solve o af st) = st.
+Proof.
+  destruct (solve_cases o af st) as [H | [H | [H | [[H _] | [H [C _]]]]]]; rewrite H; simpl; auto; try congruence.
+  intros _. unfold wb in *. rewrite (writeback_failed_unchanged _ _ _ _ _ _ C). apply set_pv_same.
 Qed.
 
 (* everything but the parameter values *)
